@@ -31,7 +31,7 @@ DATASETS = ["audio", "cloud", "file_sharing", "fixed_social_media", "gaming", "m
 
 
 def plan(tier, seed):
-    n = 3000 if tier == "quick" else 150000
+    n = 8000 if tier == "quick" else 450000
     specs = [{"kind": "random", "start": p * (n // NSHARDS), "count": n // NSHARDS} for p in range(NSHARDS)]
     ns = [2, 5, 10] if tier == "quick" else list(range(2, 65))
     specs += [{"kind": "datasets", "names": DATASETS[p::8], "ns": ns} for p in range(8)]
